@@ -35,7 +35,7 @@ META = {
             "before/after the world run) and two disjoint_set objects of the same type alive on one communicator, each judged independently.",
     "note": "Trusted: Lean kernel + propext/Classical.choice/Quot.sound; the hand-written model DSet.lean, tied to disjoint_set_impl.hpp by "
             "exact FIFO replay on one rank and by invariants/partition comparison on the explored multi-rank schedules; handler atomicity "
-            "(C08) and exactly-once delivery (C01) are assumptions of the model; all_compress is modelled only by its effect "
+            "and exactly-once delivery are DERIVED from the communicator model (Props/ContainersComm: DSetComm.C17_connectivity_after_barrier: every Comm history projects to a DSet history and is quiescent at barrier exit); all_compress is modelled only by its effect "
             "(every item points at its root) and checked by comparison, its level-by-level query protocol is not proved; int16 rank "
             "overflow ignored (needs 2^32767 items).",
 }
